@@ -136,9 +136,15 @@ fn cfg_line(who: Who, s: String) -> Line {
 /// Build a configuration. Leaves and fs ids are allocated sequentially so that driver and real
 /// world agree. `kind` is one of the catalogue names.
 pub fn build_cfg(kind: &str, rng: &mut Rng) -> Cfg {
+    build_cfg_at(kind, rng, 0, 0, true).0
+}
+
+/// like `build_cfg`, with the leaf and filesystem ids starting at the given numbers (so that
+/// several configurations can live in one world); returns the next free ids
+pub fn build_cfg_at(kind: &str, rng: &mut Rng, leaf0: usize, fs0: usize, with_spec: bool) -> (Cfg, usize, usize) {
     let mut lines: Vec<Line> = vec![];
-    let mut n_leaf = 0usize;
-    let mut n_fs = 0usize;
+    let mut n_leaf = leaf0;
+    let mut n_fs = fs0;
     let mut new_leaf = |lines: &mut Vec<Line>, k: &str, who: Who| -> usize {
         lines.push(cfg_line(who, format!("leaf {}", k)));
         n_leaf += 1;
@@ -234,10 +240,13 @@ pub fn build_cfg(kind: &str, rng: &mut Rng) -> Cfg {
         _ => panic!("unknown config {}", kind),
     }
     // the reference tree: a model-only phys leaf holding the abstract content
-    let sl = new_leaf(&mut lines, "phys", Who::Model);
-    let spec = new_fs(&mut lines, format!("leaf {}", sl), Who::Model);
-    lines.extend(populate_lines(spec, &abstract_content, Who::Model));
-    Cfg { name: kind.to_string(), lines, target, spec, overlay_upper, kind: kind.to_string() }
+    let mut spec = usize::MAX;
+    if with_spec {
+        let sl = new_leaf(&mut lines, "phys", Who::Model);
+        spec = new_fs(&mut lines, format!("leaf {}", sl), Who::Model);
+        lines.extend(populate_lines(spec, &abstract_content, Who::Model));
+    }
+    (Cfg { name: kind.to_string(), lines, target, spec, overlay_upper, kind: kind.to_string() }, n_leaf, n_fs)
 }
 
 #[derive(Clone, Debug)]
@@ -1065,6 +1074,18 @@ pub fn tree_spec_for(prop: &str) -> TreeSpec {
             composite_ops: false,
             time_ops: true,
             preds: vec!["time-roundtrip"],
+        },
+        "C11" => TreeSpec {
+            prop: prop.into(),
+            configs: vec!["mem", "phys", "alt(mem)", "alt(phys)", "ovl(mem,mem)", "ovl(phys,mem)", "ovl(mem,phys)", "alt(ovl(mem,mem))"],
+            corr_level: 0,
+            spec_results: true,
+            spec_snapshots: true,
+            wrong_type_calls: false,
+            root_calls: false,
+            composite_ops: true,
+            time_ops: false,
+            preds: vec![],
         },
         "C12" => TreeSpec {
             prop: prop.into(),
